@@ -16,7 +16,7 @@ Proof. unfold fetch_seqs. apply flat_map_app. Qed.
 Lemma merge_into_none acc i : ~ In (fi_seq i) (fetch_seqs acc) -> merge_into acc i = None.
 Proof.
   induction acc as [|u r IH]; intros H; cbn [merge_into]; [reflexivity|].
-  destruct u as [| | |a| |]; cbn [fetch_seqs flat_map app] in H;
+  destruct u as [| | |a| | | | |]; cbn [fetch_seqs flat_map app] in H;
     try (rewrite IH by exact H; reflexivity).
   destruct (fi_seq a =? fi_seq i) eqn:E.
   - apply N.eqb_eq in E. exfalso. apply H. left. exact E.
@@ -28,7 +28,7 @@ Lemma merge_into_skip pre r i : ~ In (fi_seq i) (fetch_seqs pre) ->
 Proof.
   induction pre as [|u p IH]; intros H; cbn [app].
   - destruct (merge_into r i); reflexivity.
-  - destruct u as [| | |a| |]; cbn [fetch_seqs flat_map app] in H; cbn [merge_into];
+  - destruct u as [| | |a| | | | |]; cbn [fetch_seqs flat_map app] in H; cbn [merge_into];
       try (rewrite IH by exact H; destruct (merge_into r i); reflexivity).
     destruct (fi_seq a =? fi_seq i) eqn:E.
     + apply N.eqb_eq in E. exfalso. apply H. left. exact E.
@@ -38,7 +38,7 @@ Qed.
 Lemma add_untagged_fresh acc u :
   (forall i, u = UFetch i -> ~ In (fi_seq i) (fetch_seqs acc)) -> add_untagged acc u = acc ++ [u].
 Proof.
-  intros H. destruct u as [| | |i| |]; cbn [add_untagged]; try reflexivity.
+  intros H. destruct u as [| | |i| | | | |]; cbn [add_untagged]; try reflexivity.
   rewrite merge_into_none; [reflexivity|]. apply H. reflexivity.
 Qed.
 
@@ -195,11 +195,6 @@ Proof.
 Qed.
 
 (* --------------------------------------- compare: removals and arrivals *)
-Lemma filter_none {A} (p : A -> bool) l : (forall x, In x l -> p x = false) -> filter p l = [].
-Proof.
-  induction l as [|x r IH]; intros H; cbn [filter]; [reflexivity|].
-  rewrite (H x (or_introl eq_refl)). apply IH. intros y Hy. apply H. right. exact Hy.
-Qed.
 
 Lemma skipn_app_exact {A} (a b : list A) n : length a = n -> skipn n (a ++ b) = b.
 Proof. intros <-. induction a as [|x r IH]; cbn; [reflexivity|exact IH]. Qed.
